@@ -321,6 +321,11 @@ def post_decode_mutation(model: Model, run: Run) -> None:
             if isinstance(c, (ast.Assign, ast.AugAssign)):
                 for t in (c.targets if isinstance(c, ast.Assign) else [c.target]):
                     if isinstance(t, ast.Attribute) and not (isinstance(t.value, ast.Name) and t.value.id == "self"):
+                        if isinstance(t.value, ast.Name):
+                            # an object this function itself allocates with <type>.__new__(...) is still under construction
+                            binds = [a.value for a in walk_no_nested(fi.node) if isinstance(a, ast.Assign) and any(isinstance(x, ast.Name) and x.id == t.value.id for x in a.targets)]
+                            if binds and t.value.id not in fi.params() and all(isinstance(b, ast.Call) and isinstance(b.func, ast.Attribute) and b.func.attr == "__new__" for b in binds):
+                                continue
                         n += 1
                         run.ob("W14-no-post-decode-mutation", False)
                         run.fail(Finding("W14-no-post-decode-mutation", fq, norm(c)[:80], f"{fi.name} assigns an attribute of a decoded value", model.loc(fi.module, c)))
